@@ -161,6 +161,39 @@ def systematic(rng, tier):
 				b'GET / HTTP/1.1\r\nHost: h\r\nConnection: Upgrade, HTTP2-Settings\r\nUpgrade: ' + v + b'\r\nHTTP2-Settings: Zm9v\r\n\r\n',
 				b'GET / HTTP/1.1\r\nHost: h\r\nConnection: Upgrade, ' + v + b'\r\nUpgrade: h2c\r\nHTTP2-Settings: Zm9v\r\n\r\n'):
 			out.append({'k': 'hostile', 'kind': 'server', 's': st.hex(), 'cuts': [[]]})
+	# small inputs whose cost could be super-linear or proportional to a NUMBER they contain instead of their length: a run of one
+	# character followed by a character that makes the match fail (regular expressions that backtrack), and huge numerals in every
+	# numeric position (section numbers, lengths, sizes, versions, ports, quality values)
+	for k_ in (26, 30, 34, 40, 64, 200, 4000):
+		for ch in (b'a', b'.', b'-', b'a.', b' ', b'1', b'%41', b'\\', b'"', b'(', b',', b';', b'='):
+			run_ = (ch * k_)[:k_ if len(ch) == 1 else k_ * len(ch)]
+			for bad in (b'(', b'\x01', b'!', b'\xff', b' x', b''):
+				v = run_ + bad
+				for st in (b'GET / HTTP/1.1\r\nHost: ' + v + b'\r\n\r\n',
+						b'GET /' + v + b' HTTP/1.1\r\nHost: h\r\n\r\n',
+						b'GET http://' + v + b'/ HTTP/1.1\r\nHost: h\r\n\r\n',
+						b'POST / HTTP/1.1\r\nHost: h\r\nContent-Type: a/b; p=' + v + b'\r\nContent-Length: 0\r\n\r\n',
+						b'POST / HTTP/1.1\r\nHost: h\r\nContent-Type: ' + v + b'\r\nContent-Length: 0\r\n\r\n',
+						b'POST / HTTP/1.1\r\nHost: h\r\nTransfer-Encoding: ' + v + b'\r\n\r\n',
+						b'POST / HTTP/1.1\r\nHost: h\r\nTransfer-Encoding: chunked\r\nTrailer: ' + v + b'\r\n\r\n0\r\n\r\n'):
+					if k_ > 64 and ch not in (b'a', b'.', b'a.'):
+						continue
+					if tier != 'thorough' and rng.random() < .5 and k_ not in (34, 40):
+						continue
+					out.append({'k': 'hostile', 'kind': 'server', 's': st.hex(), 'cuts': [[]]})
+	big = [b'7000000000', b'99999999999999999999', b'18446744073709551616', b'1' + b'0' * 400, b'0x7fffffffffffffff', b'1e9', b'4294967296', b'-7000000000']
+	for n_ in big:
+		for st in (b'POST / HTTP/1.1\r\nHost: h\r\nContent-Type: a/b; title*' + n_ + b'=x\r\nContent-Length: 0\r\n\r\n',
+				b'POST / HTTP/1.1\r\nHost: h\r\nContent-Type: a/b; title*0=x; title*' + n_ + b'=y\r\nContent-Length: 0\r\n\r\n',
+				b'POST / HTTP/1.1\r\nHost: h\r\nContent-Disposition: a; filename*' + n_ + b"*=utf-8''x\r\nContent-Length: 0\r\n\r\n",
+				b'POST / HTTP/1.1\r\nHost: h\r\nContent-Length: ' + n_ + b'\r\n\r\nab',
+				b'POST / HTTP/1.1\r\nHost: h\r\nTransfer-Encoding: chunked\r\n\r\n' + n_ + b'\r\nab\r\n0\r\n\r\n',
+				b'GET / HTTP/' + n_ + b'.' + n_ + b'\r\nHost: h\r\n\r\n',
+				b'GET / HTTP/1.1\r\nHost: h:' + n_ + b'\r\n\r\n',
+				b'GET http://h:' + n_ + b'/ HTTP/1.1\r\nHost: h\r\n\r\n',
+				b'GET / HTTP/1.1\r\nHost: h\r\nAccept: a/b;q=' + n_ + b'\r\nRange: bytes=0-' + n_ + b'\r\n\r\n'):
+			out.append({'k': 'hostile', 'kind': 'server', 's': st.hex(), 'cuts': [[]]})
+		out.append({'k': 'hostile', 'kind': 'client', 's': (b'HTTP/1.1 ' + n_ + b' OK\r\nContent-Length: ' + n_ + b'\r\n\r\n').hex(), 'cuts': [[]]})
 	# every charset name the code may accept (KNOWN_ENCODINGS as the tree has it now), every codec name Python knows
 	# (text or not: uu, hex, rot13, zlib ... are codecs that bytes.decode() refuses with LookupError), as the charset
 	# of an encoded word in a field the parser reads and of an RFC 5987 extended parameter
@@ -248,9 +281,36 @@ def gen_cases(rng, tier):
 	return cases
 
 
+LIMIT_S = 12.0   # no parse() of the small inputs generated here may take longer (the slowest clean-tree case takes well under a second)
+
+
+class _Timeout(BaseException):   # BaseException: an "except Exception" of the library or of the recorder cannot swallow it
+	pass
+
+
+def _with_limit(fn, secs=LIMIT_S):
+	import signal
+
+	def handler(sig, frm):
+		raise _Timeout()
+	old = signal.signal(signal.SIGALRM, handler)
+	signal.setitimer(signal.ITIMER_REAL, secs)
+	t0 = time.perf_counter()
+	try:
+		return fn(), None
+	except _Timeout:
+		return None, time.perf_counter() - t0
+	finally:
+		signal.setitimer(signal.ITIMER_REAL, 0)
+		signal.signal(signal.SIGALRM, old)
+
+
 def observe(c):
 	if c['k'] == 'hostile':
-		return pc.observe_stream(c['kind'], bytes.fromhex(c['s']), c['cuts'])
+		o, late = _with_limit(lambda: pc.observe_stream(c['kind'], bytes.fromhex(c['s']), c['cuts']))
+		if late is not None:
+			return {'runs': [], 'timeout': round(late, 1)}
+		return o
 	if c['k'] == 'depth':
 		t0 = time.perf_counter()
 		o = parser_rec.run(c['kind'], [bytes.fromhex(c['s'])], record=False)
@@ -307,6 +367,8 @@ def _escapes(o):
 def oracle(c, o):
 	if 'harness_exception' in o:
 		return 'harness exception: %s' % o['harness_exception']
+	if o.get('timeout'):
+		return 'parse() of a %d-octet input did not return within %.0f s (the work of one call must be bounded by the size of the input): %r' % (len(c.get('s', '')) // 2, LIMIT_S, bytes.fromhex(c.get('s', ''))[:120])
 	if c['k'] == 'hostile':
 		esc = _escapes(o)
 		if esc:
